@@ -91,6 +91,19 @@ def mutations(src):
     yield ('(m, control) compile_negative_lookaround: an unused `let unused = self.b.pc();` added (same meaning)',
            once(src, k, k.replace('        self.b.add(Insn::Split(pc + 1, usize::MAX));\n',
                                   '        let unused = self.b.pc();\n        self.b.add(Insn::Split(pc + 1, usize::MAX));\n'), 'm'))
+    yield ('(n, control) compile_lookaround_inner: `la == LookBehind || la == LookBehindNeg` written as `matches!(la, LookBehind | LookBehindNeg)` (same meaning)',
+           once(src, 'if la == LookBehind || la == LookBehindNeg {', 'if matches!(la, LookBehind | LookBehindNeg) {', 'n'))
+    yield ('(o, control) VMBuilder::new written with struct update syntax (`VMBuilder { n_saves: max_group * 2, ..VMBuilder { prog: Vec::new(), n_saves: 0 } }`, same meaning)',
+           once(src, '''        VMBuilder {
+            prog: Vec::new(),
+            n_saves: max_group * 2,
+        }''', '''        VMBuilder {
+            n_saves: max_group * 2,
+            ..VMBuilder {
+                prog: Vec::new(),
+                n_saves: 0,
+            }
+        }''', 'o'))
 
 
 def locate(line):
